@@ -6,6 +6,7 @@ package main
 // term included, with the Lean model of clause.go.
 
 import (
+	"hash/fnv"
 	"fmt"
 	"math/rand"
 	"strings"
@@ -558,5 +559,34 @@ func runC10Observe(payload string) string {
 	if strings.Contains(cl, "C2::-") && (strings.TrimSpace(bindS) != "" || strings.Count(cl, "V0") > 1) {
 		nt = 1
 	}
-	return fmt.Sprintf("vars=%s ;; inq: [%s] ;; assert: %s ;; exec: %s ### nt=%d result=ok", after, strings.Join(inq, " , "), a, bb, nt)
+	// neighbours in one text: a dynamic predicate with n clauses (n drawn from the case) followed by another
+	// predicate; growing the first one afterwards (assertz/1) must leave the clauses of the second alone
+	nb := "ok"
+	{
+		h := fnv.New32a()
+		h.Write([]byte(payload))
+		n := 1 + int(h.Sum32()%13)
+		var sb strings.Builder
+		sb.WriteString(":- dynamic(nb_c/1). :- dynamic(nb_lim/1).\n")
+		for k := 1; k <= n; k++ {
+			fmt.Fprintf(&sb, "nb_c(%d).\n", k)
+		}
+		sb.WriteString("nb_lim(10).\nnb_lim(20).\n")
+		if err := i.Exec(sb.String()); err != nil {
+			nb = "bad(exec " + encName(err.Error()) + ")"
+		} else if r := solveOnce(&i.VM, compound("assertz", compound("nb_c", atom("new")))); r != "true" {
+			nb = "bad(assertz " + r + ")"
+		} else {
+			x := engine.NewVariable()
+			lim, _ := solveAll(&i.VM, compound("nb_lim", x), x, 20)
+			y := engine.NewVariable()
+			cs, _ := solveAll(&i.VM, compound("clause", compound("nb_lim", y), atom("true")), y, 20)
+			z := engine.NewVariable()
+			all, _ := solveAll(&i.VM, compound("nb_c", z), z, 40)
+			if strings.Join(lim, ",") != "I10,I20" || strings.Join(cs, ",") != "I10,I20" || len(all) != n+1 || all[n] != "Anew" {
+				nb = fmt.Sprintf("bad(n=%d lim=%s clause=%s c=%s)", n, encName(strings.Join(lim, ",")), encName(strings.Join(cs, ",")), encName(strings.Join(all, ",")))
+			}
+		}
+	}
+	return fmt.Sprintf("vars=%s ;; inq: [%s] ;; nb: %s ;; assert: %s ;; exec: %s ### nt=%d result=ok", after, strings.Join(inq, " , "), nb, a, bb, nt)
 }
